@@ -263,12 +263,12 @@ func propC10(c *Ctx) {
 	c.CheckCallers(q6, []string{"(*ports.PortManager).ReservePort", "(*ports.PortManager).ReleasePort"}, []CallerSpec{
 		{Fn: "(*tcp.endpoint).Bind", Target: "(*ports.PortManager).ReservePort", Args: []string{pmT, bindProtos, "6", "new(tcpip.FullAddress).Addr@2", "new(tcpip.FullAddress).Port@2"}, Why: "TCP bind reserves (protocols of the address family, TCP, the requested address after v4-mapped unwrapping, the requested port)"},
 		{Fn: "(*tcp.endpoint).Bind$1", Target: "(*ports.PortManager).ReleasePort", Args: []string{"^" + pmT, "^&new([]tcpip.NetworkProtocolNumber)", "6", "^&new(tcpip.FullAddress).Addr", tcpReserve}, Why: "a failed bind releases exactly what it reserved: same protocols, same address, the port ReservePort returned"},
-		{Fn: "(*tcp.endpoint).Close", Target: "(*ports.PortManager).ReleasePort", Args: []string{pmT, "$0.effectiveNetProtos", "6", "$0.id.LocalAddress", "$0.id.LocalPort"}, Why: "close releases the endpoint's recorded protocols/address/port"},
+		{Fn: "(*tcp.endpoint).Close", Target: "(*ports.PortManager).ReleasePort", Args: []string{pmT, "$0.effectiveNetProtos", "6", "$0.id.LocalAddress", "$0.id.LocalPort"}, Guards: []string{"$0.isPortReserved"}, Why: "close releases the endpoint's recorded protocols/address/port"},
 		{Fn: "(*tcp.endpoint).connect", Target: "(*ports.PortManager).ReleasePort", Args: []string{pmT, "$0.effectiveNetProtos", "6", "$0.id.LocalAddress", "$0.id.LocalPort"}, Why: "connect gives up the bind-time reservation under the address and port the endpoint had ON ENTRY (unversioned terms: the snapshot taken before e.id is overwritten with the route's address)"},
 		{Fn: "(*udp.endpoint).Close", Target: "(*ports.PortManager).ReleasePort", Args: []string{pmT, "$0.effectiveNetProtos", "17", "$0.id.LocalAddress", "$0.id.LocalPort"}, Why: "close releases the endpoint's recorded protocols/address/port"},
 		{Fn: "(*udp.endpoint).bindLocked", Target: "(*ports.PortManager).ReleasePort", Args: []string{pmT, udpProtos, "17", "phi{" + udpReg + ".LocalAddress | new(tcpip.FullAddress).Addr@2}", "phi{" + udpReg + ".LocalPort | new(tcpip.FullAddress).Port@2}"}, Why: "bind rolled back by the commit callback: releases the id registerWithStack returned"},
-		{Fn: "(*udp.endpoint).registerWithStack", Target: "(*ports.PortManager).ReservePort", Args: []string{pmT, "$2", "17", "$3.LocalAddress", udpPort}, Why: "UDP reserves (given protocols, UDP, the id's local address, the id's port)"},
-		{Fn: "(*udp.endpoint).registerWithStack", Target: "(*ports.PortManager).ReleasePort", Args: []string{pmT, "$2", "17", "$3.LocalAddress", udpPort}, Why: "registration failed: release with the same four values"},
+		{Fn: "(*udp.endpoint).registerWithStack", Target: "(*ports.PortManager).ReservePort", Args: []string{pmT, "$2", "17", "$3.LocalAddress", udpPort}, Guards: []string{"($0.id.LocalPort == 0)"}, Why: "UDP reserves (given protocols, UDP, the id's local address, the id's port) exactly when the ENDPOINT has no local port yet (e.id, not the requested id: a bind to an explicit port must go through the port manager too)"},
+		{Fn: "(*udp.endpoint).registerWithStack", Target: "(*ports.PortManager).ReleasePort", Args: []string{pmT, "$2", "17", "$3.LocalAddress", udpPort}, Guards: []string{"!((*stack.Stack).RegisterTransportEndpoint($0.stack, $1, $2, 17, phi{$3 | partial}, $0) == nil)"}, Why: "registration failed: release with the same four values"},
 	})
 
 }
